@@ -449,7 +449,7 @@ fn degenerate(seed: u64) -> Vec<Fail> {
         5 => (1024, 1024, 0),
         _ => (1024, 1024, 1),
     };
-    let cfg = Cfg { memtable: mem, file, block, reuse: true, bloom_bits: 10 };
+    let cfg = Cfg { memtable: mem, file, block, reuse: true, bloom_bits: 10, share: false };
     let db = match open(&cfg, &fs) {
         Ok(d) => d,
         Err(_) => return vec![], // rejecting the options is fine
